@@ -608,7 +608,9 @@ fn gen_offsets(rng: &mut Rng, n: usize) -> Vec<usize> {
 fn gen_strings(rng: &mut Rng, n: usize, long: bool) -> Vec<Vec<u8>> {
     (0..n)
         .map(|_| {
-            let l = if long && rng.chance(1, 3) { 13 + rng.usize(20) } else { rng.usize(6) };
+            // inline-view boundary: 12 bytes inline, 13 in a data buffer
+            let big = 13 + rng.usize(20);
+            let l = if long && rng.chance(1, 3) { *rng.pick(&[12usize, 13, big]) } else { rng.usize(6) };
             (0..l).map(|_| b'a' + rng.usize(26) as u8).collect()
         })
         .collect()
@@ -724,7 +726,9 @@ fn gen_array(rng: &mut Rng, dt: &DataType, n: usize, ctx: &mut Ctx, path: &str) 
             Arc::new(StructArray::try_new_with_length(fs.clone(), cols, gen_nulls(rng, n), n).unwrap())
         }
         DataType::Dictionary(kt, vt) => {
-            let fresh_len = 1 + rng.usize(5);
+            // usually small; sometimes exactly the capacity of the key type (key = 127 / 255 used)
+            let cap = match kt.as_ref() { DataType::Int8 => 128, DataType::UInt8 => 256, _ => 300 };
+            let fresh_len = if rng.chance(1, 8) { cap } else { 1 + rng.usize(5) };
             let action = if ctx.batch == 0 || !ctx.pool.contains_key(path) {
                 3
             } else if ctx.evo == 4 {
@@ -747,7 +751,8 @@ fn gen_array(rng: &mut Rng, dt: &DataType, n: usize, ctx: &mut Ctx, path: &str) 
             let nulls = gen_nulls(rng, n);
             macro_rules! mk {
                 ($t:ty, $nat:ty) => {{
-                    let keys: Vec<$nat> = (0..n).map(|_| rng.usize(dl.min(100)) as $nat).collect();
+                    let kmax = dl.min(cap);
+                    let keys: Vec<$nat> = (0..n).map(|i| if i == 0 { kmax.saturating_sub(1) } else { rng.usize(kmax.max(1)) } as $nat).collect();
                     Arc::new(DictionaryArray::<$t>::try_new(PrimitiveArray::<$t>::new(keys.into(), nulls), values).unwrap()) as ArrayRef
                 }};
             }
@@ -979,6 +984,7 @@ fn rt_options(c: &RtCase) -> Result<IpcWriteOptions, ArrowError> {
     let o = match c.codec.as_str() {
         "lz4" => o.try_with_compression(Some(CompressionType::LZ4_FRAME))?,
         "zstd" => o.try_with_compression(Some(CompressionType::ZSTD))?,
+        "zstdL" => o.try_with_compression(Some(CompressionType::ZSTD))?.try_with_compression_level(Some(7))?,
         _ => o,
     };
     Ok(o.with_dictionary_handling(if c.delta { DictionaryHandling::Delta } else { DictionaryHandling::Resend }))
@@ -1111,8 +1117,9 @@ fn run_rt(t: &[&str]) -> (String, Option<String>, String) {
                     }
                     write_message(&mut out, batch, &o).map_err(|e| (i, e))?;
                 }
-                if c.seed % 2 == 0 {
-                    // explicit end-of-stream marker (otherwise: plain EOF)
+                if c.seed % 2 == 0 || c.reader.starts_with("decoder") {
+                    // explicit end-of-stream marker (otherwise: plain EOF, which `StreamReader` accepts;
+                    // `StreamDecoder` needs the marker to flush a last message with an empty body)
                     if !c.legacy {
                         out.extend_from_slice(&[0xff; 4]);
                     }
@@ -1229,7 +1236,7 @@ fn run_rt(t: &[&str]) -> (String, Option<String>, String) {
             let flen = arrow_ipc::reader::read_footer_length(buffer[trailer..].try_into().unwrap())?;
             let footer = arrow_ipc::root_as_footer(&buffer[trailer - flen..trailer]).map_err(|e| ArrowError::ParseError(format!("{e:?}")))?;
             let fschema = Arc::new(arrow_ipc::convert::try_fb_to_schema(footer.schema().unwrap())?);
-            let mut d = arrow_ipc::reader::FileDecoder::new(fschema.clone(), footer.version()).with_require_alignment(c.seed % 3 == 0);
+            let mut d = arrow_ipc::reader::FileDecoder::new(fschema.clone(), footer.version()).with_require_alignment(c.seed % 3 == 0 && c.align >= 16 && c.codec == "none");
             if let Some(p) = proj.clone() {
                 d = d.with_projection(p);
             }
@@ -1258,7 +1265,7 @@ fn run_rt(t: &[&str]) -> (String, Option<String>, String) {
             let dense = schema.fields().iter().any(|f| has_type(f.data_type(), &|t| matches!(t, DataType::Union(_, UnionMode::Dense))));
             let whole = (dense || c.reader == "decoder-req") && c.dom != "decoder-unaligned";
             // `with_require_alignment(true)` is satisfiable when the whole stream sits in one aligned buffer
-            let mut d = StreamDecoder::new().with_require_alignment(c.reader == "decoder-req" && c.align >= 8);
+            let mut d = StreamDecoder::new().with_require_alignment(c.reader == "decoder-req" && c.align >= 16 && c.codec == "none");
             while pos < bytes.len() {
                 let n = if whole { bytes.len() } else { (1 + rng.usize(200)).min(bytes.len() - pos) };
                 // chunks start at an odd address unless `whole` (64-byte aligned copy)
@@ -1588,6 +1595,58 @@ fn parse_data(c: &mut Cur) -> ArrayData {
     unsafe { ArrayData::builder(dt).len(len).offset(offset).nulls(nulls).buffers(bufs).child_data(kids).build_unchecked() }
 }
 
+/// schema <-> flatbuffer conversion through every public entry point of convert.rs
+fn run_schema(seed: u64) -> String {
+    let mut rng = Rng::new(seed ^ 0x5C4E);
+    let dom = Dom { ree: true, sliced_children: false, ree_sliced: true, union_sliced: true };
+    let n = rng.usize(5);
+    let fields: Vec<Field> = (0..n)
+        .map(|i| {
+            let f = tfield(&mut rng, &format!("c{i}"), 2, dom);
+            if rng.bool() { f.with_nullable(false) } else { f }
+        })
+        .collect();
+    let schema = Schema::new_with_metadata(fields, gen_meta(&mut rng));
+    // 1. IpcSchemaEncoder::schema_to_fb (a Schema root) -> try_fb_to_schema / fb_to_schema
+    let mut tr = DictionaryTracker::new(false);
+    let fbb = arrow_ipc::convert::IpcSchemaEncoder::new().with_dictionary_tracker(&mut tr).schema_to_fb(&schema);
+    let bytes = fbb.finished_data().to_vec();
+    let root = match arrow_ipc::root_as_schema(&bytes) {
+        Ok(r) => r,
+        Err(_) => return "ERR:parse:root_as_schema".into(),
+    };
+    match arrow_ipc::convert::try_fb_to_schema(root) {
+        Ok(s) if s == schema => {}
+        Ok(_) => return "MISMATCH:try_fb_to_schema".into(),
+        Err(e) => return format!("{}:try_fb_to_schema", err_class(&e)),
+    }
+    #[allow(deprecated)]
+    if arrow_ipc::convert::fb_to_schema(root) != schema {
+        return "MISMATCH:fb_to_schema".into();
+    }
+    // 2. the schema message of a stream -> try_schema_from_ipc_buffer / MessageBuffer
+    let legacy = seed % 2 == 1;
+    let o = opts(8, legacy, if legacy { 4 } else { 5 });
+    let mut tracker = DictionaryTracker::new(false);
+    let enc = IpcDataGenerator::default().schema_to_bytes_with_dictionary_tracker(&schema, &mut tracker, &o);
+    match arrow_ipc::convert::try_schema_from_flatbuffer_bytes(&enc.ipc_message) {
+        Ok(s) if s == schema => {}
+        Ok(_) => return "MISMATCH:try_schema_from_flatbuffer_bytes".into(),
+        Err(e) => return format!("{}:try_schema_from_flatbuffer_bytes", err_class(&e)),
+    }
+    if arrow_ipc::convert::MessageBuffer::try_new(Buffer::from(enc.ipc_message.as_slice())).map(|m| m.as_ref().header_type() != MessageHeader::Schema).unwrap_or(true) {
+        return "MISMATCH:MessageBuffer".into();
+    }
+    let mut framed = vec![];
+    write_message(&mut framed, enc, &o).unwrap();
+    match arrow_ipc::convert::try_schema_from_ipc_buffer(&framed) {
+        Ok(s) if s == schema => {}
+        Ok(_) => return "MISMATCH:try_schema_from_ipc_buffer".into(),
+        Err(e) => return format!("{}:try_schema_from_ipc_buffer", err_class(&e)),
+    }
+    "ok".into()
+}
+
 /// field nodes and body buffers the real writer produces for one column
 fn run_warr(t: &[&str]) -> String {
     let mut c = Cur { s: t[2].as_bytes(), i: 0 };
@@ -1888,6 +1947,11 @@ fn run_case(line: &str) -> (String, Option<String>, String) {
         }
         "dict" => (guarded(|| run_dict(&t)), None, String::new()),
         "warr" => (guarded(|| run_warr(&t)), None, String::new()),
+        "schema" => {
+            let a = guarded(|| run_schema(t[2].parse().unwrap()));
+            let o = if a == "ok" { None } else { Some(format!("schema conversion: {}", a)) };
+            (a, o, String::new())
+        }
         "probe" if t[2].starts_with("file-continue-after-error") => {
             let a = guarded(|| run_after_error(if t[2].ends_with("delta") { "delta" } else { "resend" }));
             let good = a.contains("w1=false") && !a.contains("WRONG") && !a.contains("ERR") && (a.ends_with("batches=2/2") || a.ends_with("batches=1/1"));
@@ -2210,8 +2274,12 @@ fn gen_case(rng: &mut Rng) -> (String, String) {
         _ => {
             let dom_pre = 0;
             let _ = dom_pre;
-            let mut writer = *rng.pick(&["file", "stream", "enc"]);
-            let mut reader = if writer == "file" { "file" } else { *rng.pick(&["stream", "decoder"]) };
+            let mut writer = *rng.pick(&["file", "file", "bfile", "tfile", "stream", "stream", "enc", "enc", "gen", "gen", "bstream", "tstream"]);
+            let mut reader = if writer.ends_with("file") {
+                *rng.pick(&["file", "file", "fdec", "fbuild", "bfile", "svfile"])
+            } else {
+                *rng.pick(&["stream", "stream", "decoder", "decoder", "decoder-req", "bstream", "svstream"])
+            };
             let dom = if rng.chance(1, 10) { *rng.pick(&["ree-v4", "ree-empty", "nested-union", "decoder-unaligned"]) } else { "std" };
             if dom == "decoder-unaligned" {
                 writer = "stream";
@@ -2219,16 +2287,18 @@ fn gen_case(rng: &mut Rng) -> (String, String) {
             }
             let ver = if dom == "ree-v4" || (dom == "std" && rng.chance(1, 4)) { 4 } else { 5 };
             let legacy = ver == 4 && rng.bool();
-            let codec = if ver == 5 { *rng.pick(&["none", "none", "lz4", "zstd"]) } else { "none" };
-            let delta = rng.bool();
-            let evo = if writer == "file" { *rng.pick(&[0u8, 0, 1, 2, 2, 3, 4]) } else { rng.usize(5) as u8 };
+            let codec = if ver == 5 { *rng.pick(&["none", "none", "lz4", "zstd", "zstdL"]) } else { "none" };
+            let buffered = writer == "bfile" || writer == "bstream"; // `try_new_buffered` takes no options
+            let (ver, legacy, codec) = if buffered { (5, false, "none") } else { (ver, legacy, codec) };
+            let delta = !buffered && rng.bool();
+            let evo = if writer.ends_with("file") { *rng.pick(&[0u8, 0, 1, 2, 2, 3, 4]) } else { rng.usize(5) as u8 };
             let seed = rng.next_u64() >> 16;
             // projection indices are chosen against the schema the seed generates
             let ncols = {
                 let mut r = Rng::new(seed ^ 0xC04_0BA7);
                 if r.chance(1, 10) { 0 } else { 1 + r.usize(4) }
             };
-            let proj = if reader != "decoder" && ncols > 0 && rng.chance(1, 3) {
+            let proj = if !reader.starts_with("decoder") && ncols > 0 && rng.chance(1, 3) {
                 let mut p: Vec<usize> = (0..ncols).filter(|_| rng.bool()).collect();
                 if rng.chance(1, 4) {
                     p.reverse();
@@ -2237,13 +2307,92 @@ fn gen_case(rng: &mut Rng) -> (String, String) {
             } else {
                 "-".to_string()
             };
-            let align = *rng.pick(&aligns);
+            let align = if buffered { 64 } else if reader == "decoder-req" { *rng.pick(&[16usize, 32, 64]) } else { *rng.pick(&aligns) };
+            let codec = if reader == "decoder-req" { "none" } else { codec };
             (
                 format!("C04 rt {} {} {} {} {} {} {} {} {} {} {}", writer, reader, align, ver, if legacy { 1 } else { 0 }, codec, if delta { "delta" } else { "resend" }, evo, proj, seed, dom),
                 format!("op:rt dom:{dom} w:{} r:{} align:{} v{} legacy:{} codec:{} dict:{} evo:{} proj:{} nt", writer, reader, align, ver, legacy, codec, if delta { "delta" } else { "resend" }, evo, proj != "-"),
             )
         }
     }
+}
+
+/// fixed deterministic block of boundary cases emitted in every run (independent of the seed)
+fn dense_cases() -> Vec<(String, String)> {
+    let mut v = vec![];
+    // (b) row counts around 8 / 64 / 128 / 256 / 1024 / 2048 through rotating writer/reader/codec combinations
+    let combos = [
+        ("file", "file", 64, 5, 0, "none"), ("stream", "stream", 8, 5, 0, "lz4"), ("enc", "decoder", 16, 5, 0, "zstd"),
+        ("gen", "stream", 32, 4, 1, "none"), ("bfile", "fdec", 64, 5, 0, "none"), ("bstream", "bstream", 64, 5, 0, "none"),
+        ("tfile", "fbuild", 8, 4, 0, "none"), ("tstream", "decoder-req", 64, 5, 0, "none"), ("file", "svfile", 16, 5, 0, "zstdL"),
+    ];
+    for (k, rows) in [0usize, 1, 7, 8, 9, 63, 64, 65, 127, 128, 129, 255, 256, 257, 1023, 1024, 1025, 2049].iter().enumerate() {
+        for j in 0..3 {
+            let (w, r, a, ver, lg, codec) = combos[(k * 3 + j) % combos.len()];
+            let delta = if w.starts_with('b') { "resend" } else if (k + j) % 2 == 0 { "delta" } else { "resend" };
+            v.push((
+                format!("C04 rt {} {} {} {} {} {} {} 0 - {} std {}", w, r, a, ver, lg, codec, delta, 900_000 + k * 10 + j, rows),
+                format!("op:rt dense size:{} w:{} r:{} codec:{} nt", rows, w, r, codec),
+            ));
+        }
+    }
+    // (e) dictionary histories: shrink-then-grow, grow-shrink-grow, equal-after-replace, null-only, duplicate values
+    let hists = [
+        "1.2.3/0;1.2/1;1.2.3/2", "1.2.3/0;1.2/1;1.2.4/2", "1.2/0;1.2.3/2;1.2/1;1.2.3.4/3", "1/0;-/n;1/0", "5.5/1;5.5.5/2;5.5/0",
+        "1.2/0;3.4/1;1.2/0;1.2.9/2", "-/n;-/n;7/0", "1.2/0+9/0;1.2.3/2+9/0;1.2.3/1+9.8/1", "1.2/0+9/0;1.2/1+8/0;1.2/0+9/0",
+        "1.2.3.4/3;1.2.3/2;1.2/1;1/0", "1/0;1.2/1;1.2.3/2;1.2.3.4/3;1.2.3.4.5/4",
+    ];
+    for h in hists {
+        for fmt in ["stream", "file"] {
+            for mode in ["resend", "delta"] {
+                for reuse in [0, 1] {
+                    v.push((format!("C04 dict {} {} {} {}", fmt, mode, reuse, h), format!("op:dict:{}:{} dense nt", fmt, mode)));
+                }
+            }
+        }
+    }
+    // (b)(d) bit slices: every bit offset 0..8 x lengths around the byte / 64-bit word boundaries
+    let pat: Vec<u8> = (0..40u32).map(|i| (i * 37 + 11) as u8).collect();
+    for off in 0..9usize {
+        for len in [0usize, 1, 7, 8, 9, 63, 64, 65, 127, 128, 129, 191, 192, 193] {
+            for (kind, var) in [("values", 0), ("values", 1), ("nulls", 0), ("nulls", 1)] {
+                v.push((format!("C04 bits {} {} {} {} {}", kind, var, hex(&pat), off, len), format!("op:bits:{} dense wrap:{} {}", kind, var, if len > 0 { "nt" } else { "" })));
+            }
+        }
+    }
+    // (b) framing: metadata lengths on both sides of every alignment boundary, both prefixes
+    for align in [8usize, 16, 32, 64] {
+        for legacy in [0, 1] {
+            let pre = if legacy == 1 { 4 } else { 8 };
+            for d in [-1i64, 0, 1] {
+                for k in [1i64, 2] {
+                    let ml = k * align as i64 - pre + d;
+                    if ml >= 1 {
+                        let meta: Vec<u8> = (0..ml).map(|i| (i + 1) as u8).collect();
+                        let body = vec![0xabu8; align];
+                        v.push((format!("C04 frame {} {} {}:{};{}:-", align, legacy, hex(&meta), hex(&body), hex(&meta[..1])), format!("op:frame dense align:{} legacy:{} nt", align, legacy == 1)));
+                    }
+                }
+            }
+        }
+    }
+    // (a) projection: every grid type as the skipped column under V4 and V5
+    let grid = skip_types();
+    for (k, t) in grid.iter().enumerate() {
+        let ree = has_type(t, &|x| matches!(x, DataType::RunEndEncoded(_, _)));
+        for ver in [4, 5] {
+            if ree && ver == 4 {
+                continue;
+            }
+            let rd = if (k + ver) % 2 == 0 { "file" } else { "stream" };
+            v.push((format!("C04 proj {} {} {} {}", rd, ver, k, 800_000 + k), format!("op:proj dense pr:{} pv{} nt", rd, ver)));
+        }
+    }
+    // (a) schema conversion entry points
+    for k in 0..40 {
+        v.push((format!("C04 schema {}", 700_000 + k), "op:schema dense nt".to_string()));
+    }
+    v
 }
 
 fn main() {
@@ -2263,6 +2412,14 @@ fn main() {
     } else {
         let mut rng = Rng::new(args.seed ^ 0xC04);
         let n = n_cases(&args, 4000, 120000);
+        for (line, tags) in dense_cases() {
+            let (a, o, extra) = run_case(&line);
+            let tags = format!("{} {}", tags, extra);
+            if let Some(why) = o {
+                sink.oracle_failure(line.clone(), why, &tags);
+            }
+            sink.case(line, a, &tags);
+        }
         for _ in 0..n {
             let (line, tags) = gen_case(&mut rng);
             let (a, o, extra) = run_case(&line);
